@@ -13,7 +13,8 @@ if [ ! -d $M-wt ]; then git -C /repo worktree add -q --detach $M-wt HEAD || exit
 git -C $M-wt reset -q --hard && git -C $M-wt checkout -q --detach "$(git -C /repo rev-parse HEAD)" && git -C $M-wt clean -fdq
 if [ "$PATCH" != "/dev/null" ]; then git -C $M-wt apply "$PATCH" || { echo "patch does not apply"; exit 2; }; fi
 mkdir -p $M-harness $M-out
-rsync -a --checksum --delete --exclude Cargo.lock /verif/harness/ $M-harness/ && find $M-harness -name "*.rs" -newer $M-harness/Cargo.toml -exec touch {} + 2>/dev/null; touch $M-harness/*/src/lib.rs 2>/dev/null
+# no -t: a file whose content changed gets a fresh mtime (cargo compares mtimes), an unchanged one is left alone
+rsync -rlp --checksum --delete --exclude Cargo.lock /verif/harness/ $M-harness/
 [ -f $M-harness/Cargo.lock ] || cp /repo/Cargo.lock $M-harness/Cargo.lock
 sed -i "s#\"/repo/#\"$M-wt/#g" $M-harness/Cargo.toml
 sed -i "s#/verif/target#$M-target#" $M-harness/.cargo/config.toml
